@@ -43,6 +43,10 @@ class Counter:
             raise StopIteration(arg)
         if kind == 'oserror':
             raise ConnectionResetError('user reset', arg)
+        if kind == 'unpicklable':
+            import threading
+
+            raise ValueError('cannot travel', threading.Lock())
         raise ZeroDivisionError(arg)
 
     def echo(self, x):
